@@ -76,7 +76,7 @@ func isRefType(t types.Type) bool {
 }
 
 func C01(ctx *core.Ctx, r *core.Report) {
-	r.Explanation = "Structure of the expansion algorithm, decided on all paths: every clone() re-allocates each reference-typed field of its struct or the field is in a frozen table of fields that are shared on purpose (with the reason why nothing writes through them after parse) — so copies of a grouping are independent; every field a uses, refine or augment statement stores is read by the expansion; the phases run in the order includes ≺ imports ≺ own uses ≺ augments ≺ deviations and, inside a uses, copy ≺ refine ≺ uses-augment ≺ end of the recursion guard; the recursion guard is set before and cleared after the recursive expansion; config is inherited from the parent when unset and config true under config false is an error. Not decided: that the expanded tree equals the inline tree, scoping of names across submodules/imports, order of augments from several modules."
+	r.Explanation = "Structure of the expansion algorithm, decided on all paths: every clone() re-allocates each reference-typed field of its struct or the field is in a frozen table of fields that are shared on purpose (with the reason why nothing writes through them after parse) — so copies of a grouping are independent; every field a uses, refine or augment statement stores is read by the expansion; the phases run in the order includes ≺ imports ≺ own uses ≺ augments ≺ deviations and, inside a uses, copy ≺ refine ≺ uses-augment ≺ end of the recursion guard; the recursion guard is set before and cleared after the recursive expansion; config is inherited from the parent when unset and config true under config false is an error. The fields clone() leaves shared are never written through after parse (no store through a shared pointer, no element store into a shared slice, no map update outside the parser/Builder), and the resolver's in-progress table that recognises a recursive uses is keyed by the grouping's identity, not its name. Not decided: that the expanded tree equals the inline tree, scoping of names across submodules/imports, order of augments from several modules."
 	c01CloneIndependence(ctx, r, false)
 	c01NoWriteThroughShared(ctx, r)
 	c01RecursionGuardByIdentity(ctx, r)
@@ -444,7 +444,7 @@ func c01ConfigInheritance(ctx *core.Ctx, r *core.Report) {
 }
 
 func C02(ctx *core.Ctx, r *core.Report) {
-	r.Explanation = "Structure of type compilation, decided on all paths: every clone() of a typed node gives the copy its own *Type, so the early return of compileType for an already compiled type cannot bypass another leaf's inheritance; on the typedef branch compileType mixes the typedef's restrictions in, inherits the default only when the leaf has none and the typedef has one, inherits units only when the leaf has none; every successful return of compileType has assigned the type's delegate (so Resolve() cannot panic); every restriction field a type statement stores is read from the base type by Type.mixin. Not decided: that the derived restriction set is the RFC one (mixin replaces patterns instead of accumulating them), enum/bit numbering, leafref path resolution, identity closure."
+	r.Explanation = "Structure of type compilation, decided on all paths: every clone() of a typed node gives the copy its own *Type, so the early return of compileType for an already compiled type cannot bypass another leaf's inheritance; on the typedef branch compileType mixes the typedef's restrictions in, inherits the default only when the leaf has none and the typedef has one, inherits units only when the leaf has none; every successful return of compileType has assigned the type's delegate (so Resolve() cannot panic); every restriction field a type statement stores is read from the base type by Type.mixin. An append whose result is stored in an object's field extends that same object's slice (never another Type's ranges/patterns with spare capacity); clone() gives a typed copy its own Type under no condition but dtype != nil; the scope handed to a prefix lookup never derives from an earlier lookup's result. Not decided: that the derived restriction set is the RFC one (mixin replaces patterns instead of accumulating them), enum/bit numbering, leafref path resolution, identity closure."
 	c01CloneIndependence(ctx, r, true)
 	c02AppendOwnSlice(ctx, r)
 	c02CloneTypeUnconditional(ctx, r)
